@@ -54,6 +54,9 @@ pub enum Cred {
     GarbageToken,
     /// a session token obtained right after the user was created, used later (after revocations)
     EarlierToken,
+    /// a connection AUTH torn in two: its signature check passed while the user was active (every user authenticates once
+    /// right after creation), its second step - minting the session token - runs now, after whatever happened in between
+    TornAuthToken,
 }
 
 #[derive(Clone, Debug, Serialize, Deserialize, PartialEq)]
@@ -200,7 +203,7 @@ fn case_strategy(tier: Tier, ex: Excl) -> BoxedStrategy<Case> {
             } else {
                 vec![Kind::Store, Kind::Batch, Kind::Query, Kind::ReplayTyped, Kind::ReplayUntyped, Kind::Sequence, Kind::Count, Kind::Compare, Kind::Remember, Kind::Show, Kind::Flush, Kind::Define, Kind::CreateUser, Kind::Grant, Kind::RevokeKeyOfOther, Kind::ListUsers, Kind::ShowPermissions]
             };
-            let cred = prop_oneof![4 => Just(Cred::Inline), 2 => Just(Cred::Connection), 2 => Just(Cred::Token), 1 => Just(Cred::WrongKey), 1 => Just(Cred::TruncatedSignature), 1 => Just(Cred::SignatureOfOtherCommand), 1 => Just(Cred::NoCredentials), 1 => Just(Cred::GarbageToken), 2 => Just(Cred::EarlierToken)];
+            let cred = prop_oneof![4 => Just(Cred::Inline), 2 => Just(Cred::Connection), 2 => Just(Cred::Token), 1 => Just(Cred::WrongKey), 1 => Just(Cred::TruncatedSignature), 1 => Just(Cred::SignatureOfOtherCommand), 1 => Just(Cred::NoCredentials), 1 => Just(Cred::GarbageToken), 2 => Just(Cred::EarlierToken), 2 => Just(Cred::TornAuthToken)];
             let step = prop_oneof![
                 20 => (0..n, prop::sample::select(kinds), 0usize..2, cred, any::<bool>(), prop::sample::select(vec![0u8, 0, 0, 1, 2, 3])).prop_map(|(user, kind, ty, cred, tricky_payload, via)| Step::Do { user, kind, ty, cred, tricky_payload, via }),
                 1 => (1..n).prop_map(|user| Step::RevokeKey { user }),
@@ -528,6 +531,17 @@ fn run_case(c: &Case, rep: &mut CaseReport) -> Verdict {
                     Cred::SignatureOfOtherCommand => (vec![format!("{}:{}:{}", u.id, sign(&key, "PING"), cmd)], false),
                     Cred::NoCredentials => (vec![cmd.clone()], false),
                     Cred::GarbageToken => (vec![format!("{} TOKEN {}", cmd, "0".repeat(64))], false),
+                    Cred::TornAuthToken => {
+                        // only for users whose first AUTH step can have succeeded at some time (they authenticated after creation)
+                        let minted = if early_tokens.contains_key(&u.id) { db.req(json!({"op":"mint_token","user":u.id})).ok().and_then(|v| v["token"].as_str().map(|s| s.to_string())) } else { None };
+                        match minted {
+                            Some(tok) => {
+                                log.push(format!("# AUTH of {} completes now (token minted)", u.id));
+                                (vec![format!("{} TOKEN {}", cmd, tok)], authentic)
+                            }
+                            None => (vec![format!("{}:{}:{}", u.id, sign(&key, &cmd), cmd)], authentic),
+                        }
+                    }
                     Cred::EarlierToken => match early_tokens.get(&u.id) {
                         // in a case with the short expiry an early token is only judged once it is certainly dead
                         Some(tok) if *after_expiry => (vec![format!("{} TOKEN {}", cmd, tok)], false),
